@@ -551,9 +551,17 @@ func (e *Engine) heap(st *State, key string, s *Sort) *Term {
 		r := c.Bound("r", IntSort)
 		if strings.HasPrefix(key, "S:") {
 			j := c.Bound("j", e.IdxSort())
-			c.Axioms = append(c.Axioms, c.Forall([]*Term{r, j}, c.ILe(c.Select(c.Select(h, r), j), c.Inti(0))))
-		} else if strings.HasPrefix(key, "O:") {
+			if guardedPtrAxiom(key) {
+				c.Axioms = append(c.Axioms, c.Forall([]*Term{r, j}, c.Implies(c.ILe(r, c.Inti(0)), c.ILe(c.Select(c.Select(h, r), j), c.Inti(0)))))
+			} else {
+				c.Axioms = append(c.Axioms, c.Forall([]*Term{r, j}, c.ILe(c.Select(c.Select(h, r), j), c.Inti(0))))
+			}
+		} else if strings.HasPrefix(key, "O:") && !guardedPtrAxiom(key) {
 			c.Axioms = append(c.Axioms, c.Forall([]*Term{r}, c.ILe(c.Select(h, r), c.Inti(0))))
+		} else if strings.HasPrefix(key, "O:") {
+			// only pre-existing objects (r <= 0): the initial heap at a reference allocated later is
+			// unconstrained (a trusted contract may describe the fields of the fresh object it returns)
+			c.Axioms = append(c.Axioms, c.Forall([]*Term{r}, c.Implies(c.ILe(r, c.Inti(0)), c.ILe(c.Select(h, r), c.Inti(0)))))
 		}
 	}
 	if !existed && e.nonNegKeys[key] {
@@ -567,6 +575,23 @@ func (e *Engine) heap(st *State, key string, s *Sort) *Term {
 		}
 	}
 	return h
+}
+
+// guardedPtrAxiom: heaps of types declared `symbolic` hold objects that trusted contracts create
+// and describe (a fresh gate pointing to fresh wires): the "initial heap holds only pre-existing
+// references" axiom is then restricted to pre-existing objects. For the other heaps the unguarded
+// form is kept (cheaper for the solvers); the return-path reachability cover detects a contract
+// that contradicts it.
+func guardedPtrAxiom(key string) bool {
+	if os.Getenv("GOVC_NOGUARD") != "" {
+		return false
+	}
+	for t := range symbolicTypes {
+		if strings.Contains(key, t) {
+			return true
+		}
+	}
+	return false
 }
 
 func (e *Engine) geZero(t *Term) *Term {
